@@ -1,2 +1,46 @@
+// Independent JLS decoder written from include/jls/format.h and README only (no library code).
 #pragma once
 #include "model.h"
+
+namespace specdec {
+struct Chunk {
+    uint64_t off = 0, next = 0, prev = 0; uint8_t tag = 0, rsv = 0; uint16_t meta = 0; uint32_t plen = 0, pprev = 0, crc = 0;
+    bool hdr_ok = false, payload_ok = false; uint64_t payload_off = 0, end = 0;
+    // payload header (for track data/index/summary chunks)
+    int64_t ts = 0; uint32_t entries = 0; uint16_t entry_bits = 0;
+};
+struct DSummaryEntry { double mean, std, mn, mx; };
+struct DTrackLevel { std::vector<size_t> index_chunks, summary_chunks; };
+struct DSignal {
+    int id = 0, src = 0, sigtype = 0; uint32_t dtype_code = 0, rate = 0, spd = 0, sdf = 0, eps = 0, sumdf = 0, adf = 0, udf = 0;
+    std::string name, units;
+    size_t def_chunk = 0;
+    // per track type (0 fsr, 1 vsr, 2 anno, 3 utc)
+    bool has_track_def[4] = {false, false, false, false}; bool has_head[4] = {false, false, false, false}; size_t head_chunk[4] = {0, 0, 0, 0};
+    uint64_t head_offsets[4][16];
+    std::vector<size_t> data_chunks[4];
+    DTrackLevel levels[4][16];
+};
+struct DSource { int id; std::string s[5]; };
+struct DUser { uint16_t meta; uint8_t st; std::vector<uint8_t> data; };
+struct Decoded {
+    bool header_ok = false; uint64_t hdr_length = 0; uint32_t version = 0;
+    std::vector<Chunk> chunks;
+    std::map<uint64_t, size_t> by_off;
+    std::map<int, DSource> sources; std::map<int, DSignal> signals; std::vector<DUser> users;
+    std::vector<std::string> errors;      // "class|detail"
+    bool closed = false;                  // END chunk present and last
+    void err(const char *cls, const char *fmt, ...) __attribute__((format(printf, 3, 4)));
+};
+uint32_t crc32c(const uint8_t *p, size_t n);
+// structural walk; fills chunk table, lists, definitions. expect_closed: require END chunk and header length
+void decode(const std::vector<uint8_t> &file, Decoded &d, bool expect_closed);
+// compare the logical content recovered from the walk with the model (definitions, samples, summaries, annotations, utc, user data)
+struct ContentOpts { bool check_summaries = true; bool samples_must_be_complete = true; };
+void compare_with_model(const std::vector<uint8_t> &file, const Decoded &d, const Model &m, const ContentOpts &o, std::vector<std::string> &errors);
+// protected regions of a closed file for fault injection: [start,end) + kind (0 file header, 1 chunk header, 2 payload+pad+crc)
+struct Region { uint64_t start, end; int kind; size_t chunk; };
+void regions(const Decoded &d, std::vector<Region> &out);
+// number of summary levels present (max over FSR tracks) and chunk count
+int max_fsr_level(const Decoded &d);
+}
